@@ -154,8 +154,9 @@ class Bad:
 
 # ---------------------------------------------------------------------------------- case context
 class Ctx:
-    def __init__(self, lab: Lab, slot: "Slot", k: int, kind: str, tl: list) -> None:
+    def __init__(self, lab: Lab, slot: "Slot", k: int, kind: str, tl: list, exc_class: str = "Injected") -> None:
         self.lab, self.slot, self.k, self.kind, self.tl = lab, slot, k, kind, tl
+        self.exc = None if exc_class == "Injected" else getattr(__import__("builtins"), exc_class)("injected into %s" % slot.id)
         self.probe: Any = None
         self._shared: dict = {}
 
@@ -206,7 +207,7 @@ class Ctx:
     # callbacks
     def cb(self, impl: Callable[..., Any]) -> Any:
         assert self.probe is None, "one injected callback per case"
-        self.probe = self.lab.fn(self.slot.id, impl, raise_at=self.k)
+        self.probe = self.lab.fn(self.slot.id, impl, raise_at=self.k, exc=self.exc)
         return self.probe
 
     def fn(self, name: str, impl: Callable[..., Any]) -> Any:
@@ -516,7 +517,12 @@ def gen_case(seed: int, idx: int) -> dict:
         tl.append((t, "C", None))
     elif term == "E":
         tl.append((t, "E", SrcErr("src@%g" % t)))
-    return {"slot": slot, "k": k, "kind": kind, "variant": variant, "tl": tl, "tail": tail, "domain": domain}
+    # the class of the injected exception: library code written in EAFP style (try: d[key] / next(it) / getattr ... except KeyError /
+    # StopIteration / AttributeError) must not mistake the CALLBACK's exception for its own control flow
+    exc_class = "Injected" if variant == 0 else r.choice(["Injected", "Injected", "KeyError", "IndexError", "AttributeError", "TypeError",
+                                                          "ValueError", "StopIteration", "LookupError", "AssertionError", "RuntimeError",
+                                                          "ArithmeticError", "ZeroDivisionError"])
+    return {"slot": slot, "k": k, "kind": kind, "variant": variant, "tl": tl, "tail": tail, "domain": domain, "exc_class": exc_class}
 
 
 def origin_is(e: Any, target: Any, natural: Any) -> bool:
@@ -535,11 +541,13 @@ def run_case(seed: int, idx: int, res: UnitResult) -> None:
     case = gen_case(seed, idx)
     slot, k, kind, tl = case["slot"], case["k"], case["kind"], case["tl"]
     lab = Lab()
-    ctx = Ctx(lab, slot, k, kind, tl)
+    ctx = Ctx(lab, slot, k, kind, tl, case.get("exc_class", "Injected"))
     pipeline: Any = None
     try:
         pipeline = slot.build(ctx)
-    except Injected as e:          # a factory invoked while the observable is built let the exception out to its caller
+    except Exception as e:          # a factory invoked while the observable is built let the exception out to its caller
+        if not (isinstance(e, Injected) or e is ctx.exc):
+            raise
         lab.add("escaped", "build()", 0, e)
     if pipeline is not None and case["tail"] == "map":
         pipeline = pipeline.pipe(ops.map(ctx.fn("tail:map", R.ident)))
@@ -583,7 +591,7 @@ def run_case(seed: int, idx: int, res: UnitResult) -> None:
         hit = [e for e in lab.ev if (e[2] == "emit" and isinstance(e[6], Bad)) or (e[2] == "pull" and isinstance(e[4], Bad))]
         if hit:
             inj_seq = hit[0][0]
-    desc = {"slot": slot.id, "k": k, "kind": kind, "variant": case["variant"], "tail": case["tail"],
+    desc = {"slot": slot.id, "k": k, "kind": kind, "variant": case["variant"], "tail": case["tail"], "exception_class": case.get("exc_class", "Injected"),
             "timeline": show_timeline(tl) if slot.src else None}
     if inj_seq is None:
         res.case(key=None, nontrivial=False)
@@ -610,7 +618,9 @@ def run_case(seed: int, idx: int, res: UnitResult) -> None:
     if term is None or term[0] != "E":
         found.append(("not_delivered", "top subscriber's terminal notification is %s, expected E(%r)" % (
             "absent" if term is None else "C", injected if injected is not None else slot.natural)))
-    elif not (term[1] is injected if slot.natural is None else isinstance(term[1], slot.natural)):
+    # (PEP 479: a StopIteration that leaves a generator frame arrives as RuntimeError(cause=that StopIteration): still "the exception")
+    elif not ((term[1] is injected or (isinstance(injected, StopIteration) and isinstance(term[1], RuntimeError) and origin_is(term[1], injected, None)))
+              if slot.natural is None else isinstance(term[1], slot.natural)):
         found.append(("wrong_exception", "top subscriber got E(%r), expected the injected object %r" % (term[1], injected)))
     else:
         t_err, seq_err = term[2], term[3]
